@@ -35,8 +35,9 @@ func c12(c *ctx) {
 		die("%v", err)
 	}
 	type hcase struct {
-		cs   *gcase
-		hist []string
+		cs    *gcase
+		hist  []string
+		entry []int // entry rule per step (-1 = Parse() without argument)
 	}
 	us := []string{"uint16", "uint32", "uint64", "uint"}
 	sizes := []int{0, 1, 1 << 15}
@@ -92,7 +93,34 @@ func c12(c *ctx) {
 					h = append(h, pool[r.Intn(len(pool))])
 				}
 			}
-			hcs = append(hcs, &hcase{cs, h})
+			// one very long input (tens of thousands of runes, still below 65535 so that it fits uint16): rule number
+			// and offset must not be squeezed into too few bits anywhere
+			if i%8 == 0 {
+				unit := gram.Derive(r, g, "R0", alpha)
+				if len(unit) > 0 {
+					big := append([]rune{}, unit...)
+					for len(big) < 18000+r.Intn(8000) {
+						big = append(big, unit...)
+					}
+					if it := ref.New(g, string(big)); true {
+						it.Limit = 3000000
+						it.Parse("R0")
+						if !it.Over && it.MaxDepth < 200 {
+							h[len(h)/3] = string(big)
+							c.run.Count("histories_with_an_input_over_20000_runes", 1)
+						}
+					}
+				}
+			}
+			// entry rules: mostly Parse(), in a third of the AST-mode grammars some steps start from another rule
+			ent := make([]int, len(h))
+			for k := range ent {
+				ent[k] = -1
+				if i%3 == 0 && !v.noast && len(g.Rules) > 1 && r.Intn(3) == 0 {
+					ent[k] = 1 + r.Intn(len(g.Rules)-1)
+				}
+			}
+			hcs = append(hcs, &hcase{cs, h, ent})
 		}
 		if err := cp.Build(); err != nil {
 			die("corpus build: %v", err)
@@ -111,7 +139,7 @@ func c12(c *ctx) {
 			pkg := pkgName(hc.cs.id, variantOf[hc.cs.id])
 			// baseline: fresh instance per input (uint32, default size, memo)
 			for k, in := range hc.hist {
-				reqs = append(reqs, corpus.Req{Pkg: pkg, Entry: -1, In: []byte(in), Memo: true, U: "uint32"})
+				reqs = append(reqs, corpus.Req{Pkg: pkg, Entry: hc.entry[k], In: []byte(in), Memo: true, U: "uint32"})
 				slots = append(slots, slot{hc, "fresh", k, "fresh/uint32/size0/memo"})
 			}
 			// fresh instances under the other U / Size (result must not depend on them)
@@ -121,7 +149,7 @@ func c12(c *ctx) {
 						continue
 					}
 					k := r.Intn(len(hc.hist))
-					reqs = append(reqs, corpus.Req{Pkg: pkg, Entry: -1, In: []byte(hc.hist[k]), Memo: true, U: u, Size: sz})
+					reqs = append(reqs, corpus.Req{Pkg: pkg, Entry: hc.entry[k], In: []byte(hc.hist[k]), Memo: true, U: u, Size: sz})
 					slots = append(slots, slot{hc, "fresh", k, fmt.Sprintf("fresh/%s/size%d/memo", u, sz)})
 				}
 			}
@@ -133,7 +161,7 @@ func c12(c *ctx) {
 						for _, in := range hc.hist {
 							hb = append(hb, []byte(in))
 						}
-						reqs = append(reqs, corpus.Req{Pkg: pkg, Mode: "history", Entry: -1, Hist: hb, Memo: memo, U: u, Size: sz})
+						reqs = append(reqs, corpus.Req{Pkg: pkg, Mode: "history", Entry: -1, Hist: hb, HistEntry: hc.entry, Memo: memo, U: u, Size: sz})
 						slots = append(slots, slot{hc, "hist", 0, fmt.Sprintf("reused/%s/size%d/memo=%v", u, sz, memo)})
 					}
 				}
@@ -159,7 +187,12 @@ func c12(c *ctx) {
 				c.run.Eval(1)
 				// the baseline itself is checked against the reference (verdict + tokens), so that "fresh" is right
 				it := ref.New(s.hc.cs.g, s.hc.hist[s.k])
-				ok, _ := it.Parse("R0")
+				it.Limit = 3000000
+				start := "R0"
+				if e := s.hc.entry[s.k]; e >= 0 {
+					start = s.hc.cs.g.Rules[e].Name
+				}
+				ok, _ := it.Parse(start)
 				if !it.Over && (ok != results[i].OK || ok && !variantOf[s.hc.cs.id].noast && refTokStrings(it.Toks) != tokStrings(results[i].Toks)) {
 					c.run.Violate("fresh-ref:"+report.Hash(s.hc.cs.text, s.hc.hist[s.k]), "a fresh parser disagrees with the reference (a C01/C03 matter, observed here)",
 						map[string]any{"grammar": s.hc.cs.text, "input": s.hc.hist[s.k], "got": resKey(&results[i]), "ref_verdict": ok, "ref_tokens": refTokStrings(it.Toks)})
@@ -226,8 +259,8 @@ func c12(c *ctx) {
 		cp.Remove()
 	}
 	requireCov(c, "histories_run", "histories_with_shrink_after_success", "histories_with_success_after_failure")
-	c.run.Rule = "cases: shared-prefix and all-operator grammars (captures, actions, memo revisits; a quarter generated with -noast, whose inline action trace is compared); per grammar one history of 6-40 inputs (accepted and rejected, repeated identical inputs, a long input between short ones, the empty input in the middle) run on ONE instance with Buffer=in; Reset(); Parse(); Execute(); AST()/SprintSyntaxTree() under U in {uint16,uint32,uint64,uint} x Size in {unset,1,32768} x memo on/off, and on a fresh instance per input. " +
+	c.run.Rule = "cases: shared-prefix and all-operator grammars (captures, actions, memo revisits; a quarter generated with -noast, whose inline action trace is compared); per grammar one history of 6-40 inputs (accepted and rejected, repeated identical inputs, a long input between short ones, the empty input in the middle; in an eighth of the grammars one input of 18 000-26 000 runes, i.e. more than 65 535 tokens; in a third some steps enter through Parse(rule) of another rule) run on ONE instance with Buffer=in; Reset(); Parse(); Execute(); AST()/SprintSyntaxTree() under U in {uint16,uint32,uint64,uint} x Size in {unset,1,32768} x memo on/off, and on a fresh instance per input. " +
 		"Oracle: every step equals the fresh-instance result for that input (verdict; tokens, tree, printed tree, action trace on success; error token and message on failure), fresh results are equal across U/Size and agree with the reference interpreter. " +
 		"distinct_nontrivial = distinct (grammar, history) containing at least one shorter input right after a success and one success right after a failure."
-	c.run.Assume("inputs <= a few hundred runes so that every offset fits uint16; tokens after a failed parse are not compared")
+	c.run.Assume("inputs stay below 65 535 runes so that every offset fits uint16; tokens after a failed parse are not compared")
 }
